@@ -138,7 +138,7 @@ PROPS = {
             {"name": "bindings", "run": "TestBindings", "kind": "rapid", "checks": {Q: 8000, T: 320000}, "shards": {Q: 4, T: 16}, "steps": {Q: 20, T: 40}},
             {"name": "interleavings", "run": "TestBindInterleavings", "kind": "plain"},
             {"name": "stress", "run": "TestBindStress", "kind": "plain", "shards": {Q: 2, T: 16}, "env": {"VERIF_ROUNDS": {Q: 300, T: 12000}}},
-            {"name": "mix", "run": "TestRegistryMixStress", "kind": "plain", "shards": {Q: 2, T: 16}, "env": {"VERIF_ROUNDS": {Q: 400, T: 12000}}},
+            {"name": "mix", "run": "TestRegistryMixStress", "kind": "plain", "shards": {Q: 4, T: 16}, "env": {"VERIF_ROUNDS": {Q: 1500, T: 12000}}},
         ],
     },
     "C03": {
@@ -157,7 +157,7 @@ PROPS = {
                         "no message is injected on a removed connection (cannot happen in SHIP); disappearance of the device is tested by reconnecting the same SKI"],
         "runs": [
             {"name": "gate", "run": "TestWriteGate", "kind": "rapid", "checks": {Q: 8000, T: 400000}, "shards": {Q: 4, T: 16}, "steps": {Q: 20, T: 40}},
-            {"name": "mix", "run": "TestRegistryMixStress", "kind": "plain", "shards": {Q: 2, T: 16}, "env": {"VERIF_ROUNDS": {Q: 400, T: 12000}}},
+            {"name": "mix", "run": "TestRegistryMixStress", "kind": "plain", "shards": {Q: 4, T: 16}, "env": {"VERIF_ROUNDS": {Q: 1500, T: 12000}}},
         ],
     },
     "C10": {
